@@ -1347,6 +1347,16 @@ func init() {
 			}
 			return env.mkBool(c.And(c.IsRoot(x.Base), c.IntLe(e.A0, c.RootID(x.Base))))
 		},
+		"isnewmap": func(env *Env, n *ast.CallExpr, args []*SVal) *SVal {
+			// isnewmap(m): the map was made by this call
+			e := env.e
+			c := e.c
+			x := args[0]
+			if env.callSite {
+				return env.mkBool(c.Eq(x.T, e.newAlloc()))
+			}
+			return env.mkBool(c.NewObject(x.T, e.A0, 0))
+		},
 		"isnewobj": func(env *Env, n *ast.CallExpr, args []*SVal) *SVal {
 			// isnewobj(p): p points to an object allocated by this call (the caller may then rely on
 			// nothing else reaching it)
